@@ -20,6 +20,7 @@ from .builtin import TernaryFilteredExpression
 from .builtin.tags.case_tag import MultiExpressionBlockNode
 from .context import RenderContext
 from .token import is_lines_token
+from .token import is_raw_token
 from .token import is_tag_token
 
 if TYPE_CHECKING:
@@ -165,10 +166,16 @@ def _analyze(template: Template, *, include_partials: bool) -> TemplateAnalysis:
         # Update tags from node.token
         if not isinstance(
             node, (BlockNode, ConditionalBlockNode, MultiExpressionBlockNode)
-        ) and (is_tag_token(node.token) or is_lines_token(node.token)):
-            tags[node.token.name].append(
-                Span(template_name, node.token.start, node.token.stop)
-            )
+        ):
+            if is_tag_token(node.token) or is_lines_token(node.token):
+                tags[node.token.name].append(
+                    Span(template_name, node.token.start, node.token.stop)
+                )
+            elif is_raw_token(node.token):
+                # `{% raw %}` is scanned into a token of its own that has no name.
+                tags["raw"].append(
+                    Span(template_name, node.token.start, node.token.stop)
+                )
 
         # Update variables from node.expressions()
         for expr in node.expressions():
@@ -251,10 +258,16 @@ async def _analyze_async(
         # Update tags from node.token
         if not isinstance(
             node, (BlockNode, ConditionalBlockNode, MultiExpressionBlockNode)
-        ) and (is_tag_token(node.token) or is_lines_token(node.token)):
-            tags[node.token.name].append(
-                Span(template_name, node.token.start, node.token.stop)
-            )
+        ):
+            if is_tag_token(node.token) or is_lines_token(node.token):
+                tags[node.token.name].append(
+                    Span(template_name, node.token.start, node.token.stop)
+                )
+            elif is_raw_token(node.token):
+                # `{% raw %}` is scanned into a token of its own that has no name.
+                tags["raw"].append(
+                    Span(template_name, node.token.start, node.token.stop)
+                )
 
         # Update variables from node.expressions()
         for expr in node.expressions():
